@@ -1,7 +1,876 @@
-//! C17 — not implemented yet (stub).
-use crate::engine::Args;
+//! C17 — TLS always serves a loaded certificate that covers the requested name
+//! (in-process tier on `sozu_lib::tls::CertificateResolver`; DESIGN §4 C17).
+//!
+//! Stateful PBT: histories of Add / Remove / Replace over the fixture certificate bank
+//! (overlapping exact and wildcard names, overridden names and expirations, failing and
+//! idempotent replacements, unknown and unparsable fingerprints) are applied to the real
+//! resolver and to a reference model (a plain list of loaded `(fingerprint, names, expiry)`).
+//! After every operation every probe name is looked up exactly as
+//! `MutexCertificateResolver::resolve` does (`domain_lookup(name, true)` then the store) and
+//! compared with the model's cover sets.
+//!
+//! The wire-lab part (real handshakes, strict SNI binding / 421, the "no window" clause of
+//! Replace under concurrent handshakes) is not part of this module.
 
-pub fn run(_args: &Args) -> i32 {
-    println!("INCONCLUSIVE: C17 has no check yet");
-    2
+use std::collections::{BTreeMap, BTreeSet};
+
+use proptest::prelude::*;
+use serde::{Deserialize, Serialize};
+use sozu_command_lib::{
+    certificate::Fingerprint,
+    proto::command::{AddCertificate, CertificateAndKey, ReplaceCertificate, SocketAddress},
+};
+use sozu_lib::tls::CertificateResolver;
+
+use crate::{
+    engine::{self, Args, CaseReport, CheckResult, Evidence},
+    gens::certs::{self, Fixture},
+};
+
+// ------------------------------------------------------------------ alphabets
+
+/// names used for `CertificateAndKey.names` overrides: the bank's names plus neighbours that
+/// create more exact/wildcard overlap, and a few non-canonical spellings (upper case, trailing dot)
+const NAME_POOL: &[&str] = &[
+    "a.x.com",
+    "b.x.com",
+    "c.x.com",
+    "x.com",
+    "*.x.com",
+    "*.b.x.com",
+    "z.b.x.com",
+    "a.b.x.com",
+    "*.a.x.com",
+    "*.com",
+    "a.x.net",
+    "localhost",
+    "default.test",
+    "xn--bcher-kva.x.com",
+    // non-canonical spellings
+    "A.X.NET",
+    "A.x.com",
+    "a.x.com.",
+    "*.X.com",
+];
+
+/// probes that no pool name covers, and non-canonical spellings of covered ones
+const EXTRA_PROBES: &[&str] = &[
+    "unknown.test",
+    "com",
+    "net",
+    "test",
+    "q.x.net",
+    "sub.localhost",
+    "y.org",
+    // variants
+    "A.X.COM",
+    "a.X.com",
+    "Q.X.COM",
+    "q.x.com.",
+    "b.x.com.",
+    "LOCALHOST",
+    "Z.B.X.COM",
+];
+
+const EXPIRY_POOL: &[i64] = &[
+    0,
+    -1,
+    1,
+    1_821_900_491,
+    1_821_900_492, // the most frequent notAfter of the bank: ties
+    1_821_900_493,
+    4_102_444_800,
+    i64::MAX,
+];
+
+// ------------------------------------------------------------------ case
+
+#[derive(Clone, Copy, Debug, Serialize, Deserialize, PartialEq, Eq)]
+pub enum Bad {
+    No,
+    /// valid PEM armour around bytes that are not DER
+    PemNotDer,
+    /// truncated base64
+    PemTruncated,
+    /// empty key
+    KeyEmpty,
+    /// a certificate PEM where the key is expected
+    KeyNotAKey,
+}
+
+#[derive(Clone, Debug, Serialize, Deserialize)]
+pub struct CertSpec {
+    /// id in `certs::BANK` ("c01"…)
+    pub fixture: String,
+    pub bad: Bad,
+    /// `CertificateAndKey.names` (empty = names of the certificate)
+    pub names: Vec<String>,
+    /// `AddCertificate.expired_at` / `ReplaceCertificate.new_expired_at`
+    pub expired_at: Option<i64>,
+}
+
+#[derive(Clone, Debug, Serialize, Deserialize)]
+pub enum Op {
+    Add(CertSpec),
+    /// hex fingerprint (always decodable: `remove_certificate` takes a `Fingerprint`)
+    Remove(String),
+    /// `old` is passed verbatim as `ReplaceCertificate.old_fingerprint` (may be unparsable)
+    Replace { old: String, new: CertSpec },
+}
+
+#[derive(Clone, Debug, Serialize, Deserialize)]
+pub struct Case {
+    pub ops: Vec<Op>,
+    /// obsolete (DNS comparison is now always demanded); kept so that old replay files parse
+    #[serde(default)]
+    pub strict_case: bool,
+}
+
+type RawSpec = (u32, u8, u8, u8, Vec<u32>, u8, u32);
+
+fn raw_spec() -> impl Strategy<Value = RawSpec> {
+    (
+        any::<u32>(),                               // fixture
+        0u8..3,                                     // 0: whole bank, else the case's focus fixtures
+        0u8..32,                                    // bad selector
+        0u8..10,                                    // names mode
+        prop::collection::vec(any::<u32>(), 1..4),  // override names
+        0u8..10,                                    // expiry mode
+        any::<u32>(),                               // expiry pick
+    )
+}
+
+fn fixture_index(id: &str) -> Option<usize> {
+    certs::BANK.iter().position(|f| f.id == id)
+}
+
+fn resolve_spec(raw: RawSpec, focus: &[usize], focus_names: &[usize]) -> CertSpec {
+    let (fx, scope, bad, nmode, names, emode, epick) = raw;
+    // 2 of 3 picks come from the case's focus fixtures (more fingerprint reuse inside one history)
+    let i = if scope != 0 {
+        focus[engine::pick_idx(fx, focus.len())]
+    } else {
+        engine::pick_idx(fx, certs::BANK.len())
+    };
+    let bad = match bad {
+        28 => Bad::PemNotDer,
+        29 => Bad::PemTruncated,
+        30 => Bad::KeyEmpty,
+        31 => Bad::KeyNotAKey,
+        _ => Bad::No,
+    };
+    let names = if nmode < 6 {
+        vec![]
+    } else {
+        names
+            .into_iter()
+            .map(|x| {
+                // odd picks come from the case's focus names (more name sharing inside one history)
+                let i = if x & 1 == 1 {
+                    focus_names[engine::pick_idx(x, focus_names.len())]
+                } else {
+                    engine::pick_idx(x, NAME_POOL.len())
+                };
+                NAME_POOL[i].to_string()
+            })
+            .collect()
+    };
+    let expired_at = match emode {
+        0..=5 => None,
+        6 | 7 => {
+            // another fixture's notAfter: ties and inversions against the bank
+            Some(certs::BANK[engine::pick_idx(epick, certs::BANK.len())].not_after)
+        }
+        _ => Some(EXPIRY_POOL[engine::pick_idx(epick, EXPIRY_POOL.len())]),
+    };
+    CertSpec {
+        fixture: certs::BANK[i].id.to_string(),
+        bad,
+        names,
+        expired_at,
+    }
+}
+
+fn random_fingerprint(x: u32) -> String {
+    let mut s = x as u64 ^ 0xC17C_17C1_7C17_C17C;
+    let mut bytes = vec![];
+    for _ in 0..4 {
+        bytes.extend_from_slice(&engine::splitmix64(&mut s).to_le_bytes());
+    }
+    hex::encode(bytes)
+}
+
+pub fn strategy() -> impl Strategy<Value = Case> {
+    (
+        prop::collection::vec(any::<u32>(), 2..6),
+        prop::collection::vec(any::<u32>(), 1..4),
+        prop::collection::vec((0u8..20, raw_spec(), 0u8..20, any::<u32>()), 2..17),
+    )
+        .prop_map(|(focus, focus_names, raw_ops)| {
+            let focus_names: Vec<usize> = focus_names
+                .into_iter()
+                .map(|x| engine::pick_idx(x, NAME_POOL.len()))
+                .collect();
+            let focus: Vec<usize> = focus
+                .into_iter()
+                .map(|x| engine::pick_idx(x, certs::BANK.len()))
+                .collect();
+            let mut ops = vec![];
+            // fixtures some earlier op tried to load (they may be gone again)
+            let mut added: Vec<usize> = vec![];
+            for (kind, raw, tmode, tpick) in raw_ops {
+                let mut spec = resolve_spec(raw, &focus, &focus_names);
+                let earlier = |added: &Vec<usize>| -> Option<usize> {
+                    if added.is_empty() {
+                        None
+                    } else {
+                        Some(added[engine::pick_idx(tpick, added.len())])
+                    }
+                };
+                let any_bank = engine::pick_idx(tpick, certs::BANK.len());
+                if kind < 9 || added.is_empty() {
+                    if spec.bad == Bad::No {
+                        added.push(fixture_index(&spec.fixture).unwrap());
+                    }
+                    ops.push(Op::Add(spec));
+                } else if kind < 14 {
+                    let fp = match tmode {
+                        0..=11 => certs::BANK[earlier(&added).unwrap()].fingerprint.to_string(),
+                        12..=14 => certs::BANK[any_bank].fingerprint.to_string(),
+                        15..=17 => random_fingerprint(tpick),
+                        18 => String::new(),
+                        _ => "abcd".to_string(),
+                    };
+                    ops.push(Op::Remove(fp));
+                } else {
+                    let e = earlier(&added).unwrap();
+                    let old = match tmode {
+                        0..=8 => certs::BANK[e].fingerprint.to_string(),
+                        9 | 10 => {
+                            // idempotent replacement of a certificate loaded earlier
+                            spec.fixture = certs::BANK[e].id.to_string();
+                            certs::BANK[e].fingerprint.to_string()
+                        }
+                        11 | 12 => certs::BANK[any_bank].fingerprint.to_string(),
+                        13 => "zz".to_string(),
+                        14 => {
+                            // odd length / non-hex prefix: unparsable
+                            let fp = certs::BANK[e].fingerprint;
+                            if tpick & 1 == 0 {
+                                fp[..fp.len() - 1].to_string()
+                            } else {
+                                format!("0x{fp}")
+                            }
+                        }
+                        15 | 16 => random_fingerprint(tpick),
+                        17 => certs::BANK[e].fingerprint.to_ascii_uppercase(),
+                        18 => String::new(),
+                        _ => {
+                            // idempotent, old spelled in upper-case hex
+                            spec.fixture = certs::BANK[e].id.to_string();
+                            certs::BANK[e].fingerprint.to_ascii_uppercase()
+                        }
+                    };
+                    if spec.bad == Bad::No {
+                        added.push(fixture_index(&spec.fixture).unwrap());
+                    }
+                    ops.push(Op::Replace { old, new: spec });
+                }
+            }
+            Case {
+                ops,
+                strict_case: false,
+            }
+        })
+}
+
+// ------------------------------------------------------------------ model
+
+#[derive(Clone, Debug)]
+struct Loaded {
+    fingerprint: String,
+    fixture: &'static str,
+    /// names the certificate is loaded for, in DNS comparison form: ASCII lower case, one trailing
+    /// dot dropped, duplicates dropped (first occurrence kept)
+    names: Vec<String>,
+    /// the names as spelled in the certificate / the override (triage only)
+    raw_names: Vec<String>,
+    expiry: i64,
+}
+
+#[derive(Default)]
+struct Model {
+    loaded: Vec<Loaded>,
+    /// fingerprints that were loaded once and are not loaded now
+    removed: BTreeSet<String>,
+}
+
+/// DNS comparison form: ASCII lower case, one trailing dot (absolute form) dropped
+fn norm(s: &str) -> String {
+    let mut s = s.to_ascii_lowercase();
+    if s.ends_with('.') {
+        s.pop();
+    }
+    s
+}
+
+fn dns_form(names: &[String]) -> Vec<String> {
+    let mut out: Vec<String> = vec![];
+    for n in names {
+        let n = norm(n);
+        if !out.contains(&n) {
+            out.push(n);
+        }
+    }
+    out
+}
+
+/// the wildcard name that covers `name`: `*.` + everything after the left-most label
+fn wildcard_for(name: &str) -> Option<String> {
+    match name.split_once('.') {
+        Some((label, rest)) if !label.is_empty() && !rest.is_empty() => Some(format!("*.{rest}")),
+        _ => None,
+    }
+}
+
+impl Model {
+    fn get(&self, fp: &str) -> Option<&Loaded> {
+        self.loaded.iter().find(|l| l.fingerprint == fp)
+    }
+
+    /// `Err(())`: the request must be refused and nothing may change
+    fn add(&mut self, spec: &CertSpec) -> Result<String, ()> {
+        if spec.bad != Bad::No {
+            return Err(());
+        }
+        let fx = fixture(spec);
+        if self.get(fx.fingerprint).is_none() {
+            let raw: Vec<String> = if spec.names.is_empty() {
+                fx.names.iter().map(|s| s.to_string()).collect()
+            } else {
+                spec.names.clone()
+            };
+            // an already loaded fingerprint is kept as it is (documented: "return the certificate
+            // fingerprint regardless of having inserted it or not"; ConfigState skips it likewise)
+            self.loaded.push(Loaded {
+                fingerprint: fx.fingerprint.to_string(),
+                fixture: fx.id,
+                names: dns_form(&raw),
+                raw_names: raw,
+                expiry: spec.expired_at.unwrap_or(fx.not_after),
+            });
+            self.removed.remove(fx.fingerprint);
+        }
+        Ok(fx.fingerprint.to_string())
+    }
+
+    /// true when a loaded certificate went away
+    fn remove(&mut self, fp: &str) -> bool {
+        let before = self.loaded.len();
+        self.loaded.retain(|l| l.fingerprint != fp);
+        if self.loaded.len() != before {
+            self.removed.insert(fp.to_string());
+            true
+        } else {
+            false
+        }
+    }
+
+    /// (exact tier, wildcard tier) of loaded certificates covering `probe`, compared as DNS does
+    /// (`raw`: byte-wise against the names as spelled — triage only)
+    fn tiers_of(&self, probe: &str, raw: bool) -> (Vec<usize>, Vec<usize>) {
+        let p = if raw { probe.to_string() } else { norm(probe) };
+        let w = wildcard_for(&p);
+        let mut exact = vec![];
+        let mut wild = vec![];
+        for (i, l) in self.loaded.iter().enumerate() {
+            let names = if raw { &l.raw_names } else { &l.names };
+            if names.iter().any(|n| *n == p) {
+                exact.push(i);
+            }
+            if names.iter().any(|n| *n != p && Some(n) == w.as_ref()) {
+                wild.push(i);
+            }
+        }
+        (exact, wild)
+    }
+
+    fn tiers(&self, probe: &str) -> (Vec<usize>, Vec<usize>) {
+        self.tiers_of(probe, false)
+    }
+}
+
+fn fixture(spec: &CertSpec) -> &'static Fixture {
+    &certs::BANK[fixture_index(&spec.fixture).expect("fixture id of the bank")]
+}
+
+fn hex_bytes(s: &str) -> Option<Vec<u8>> {
+    hex::decode(s).ok()
+}
+
+/// Judge what is served (`None` = default certificate) for one name against the loaded
+/// certificates covering it: exact tier first, else wildcard tier; inside the tier a maximal expiry
+/// (ties: any). `None` = admissible, else (signature, description).
+fn verdict(
+    model: &Model,
+    served: Option<usize>,
+    exact: &[usize],
+    wild: &[usize],
+) -> Option<(&'static str, String)> {
+    let ids = |v: &[usize]| v.iter().map(|&i| model.loaded[i].fixture).collect::<Vec<_>>();
+    let tier = if !exact.is_empty() { exact } else { wild };
+    match served {
+        None => (!tier.is_empty()).then(|| {
+            (
+                "C17/default-for-covered-name",
+                format!(
+                    "gets the default certificate although loaded certificates cover it: {:?}",
+                    ids(tier)
+                ),
+            )
+        }),
+        Some(i) => {
+            let l = &model.loaded[i];
+            if !tier.contains(&i) {
+                let sig = if !exact.is_empty() && wild.contains(&i) {
+                    "C17/wildcard-over-exact"
+                } else {
+                    "C17/served-not-covering"
+                };
+                return Some((
+                    sig,
+                    format!(
+                        "is served {} {:?}; exact candidates {:?}, wildcard candidates {:?}",
+                        l.fixture,
+                        l.names,
+                        ids(exact),
+                        ids(wild)
+                    ),
+                ));
+            }
+            let best = tier.iter().map(|&j| model.loaded[j].expiry).max().unwrap();
+            (l.expiry != best).then(|| {
+                (
+                    "C17/not-longest-lived",
+                    format!(
+                        "is served {} expiring {} but an equally specific loaded certificate expires {best}",
+                        l.fixture, l.expiry
+                    ),
+                )
+            })
+        }
+    }
+}
+
+// ------------------------------------------------------------------ system under test
+
+fn certificate_and_key(spec: &CertSpec) -> CertificateAndKey {
+    let fx = fixture(spec);
+    let (pem, key) = match spec.bad {
+        Bad::No => (fx.pem, fx.key),
+        Bad::PemNotDer => (certs::BAD_NOTDER, fx.key),
+        Bad::PemTruncated => (certs::BAD_TRUNCATED, fx.key),
+        Bad::KeyEmpty => (fx.pem, ""),
+        Bad::KeyNotAKey => (fx.pem, fx.pem),
+    };
+    CertificateAndKey {
+        certificate: pem.to_string(),
+        certificate_chain: vec![],
+        key: key.to_string(),
+        versions: vec![],
+        names: spec.names.clone(),
+    }
+}
+
+fn address() -> SocketAddress {
+    SocketAddress::new_v4(127, 0, 0, 1, 8443)
+}
+
+fn probes() -> Vec<String> {
+    let mut set = BTreeSet::new();
+    let bank_names = certs::BANK.iter().flat_map(|f| f.names.iter().copied());
+    for n in bank_names.chain(NAME_POOL.iter().copied()) {
+        match n.strip_prefix("*.") {
+            Some(rest) => {
+                set.insert(format!("q.{rest}")); // one label under the wildcard
+                set.insert(format!("p.q.{rest}")); // two labels: never covered by it
+                set.insert(rest.to_string()); // the parent itself: never covered by it
+                set.insert(norm(&format!("q.{rest}")));
+            }
+            None => {
+                set.insert(n.to_string());
+                set.insert(norm(n));
+                set.insert(format!("p.{n}"));
+            }
+        }
+    }
+    for n in EXTRA_PROBES {
+        set.insert(n.to_string());
+    }
+    set.into_iter().collect()
+}
+
+/// what the resolver serves for `name`: mirrors `MutexCertificateResolver::resolve`
+/// (`domains.domain_lookup(name, true)`, then the store); `None` = default certificate
+fn served(res: &CertificateResolver, name: &str) -> Option<String> {
+    res.domain_lookup(name.as_bytes(), true)
+        .map(|(_, fp)| fp.to_string())
+}
+
+#[derive(Default)]
+struct Seen {
+    shared_name: bool,
+    expiry_tie: bool,
+    effective_remove: bool,
+    effective_replace: bool,
+    replace_idempotent_loaded: bool,
+    replace_idempotent_unloaded: bool,
+    replace_failing: bool,
+    replace_old_unparsable: bool,
+    replace_old_unknown: bool,
+    replace_new_already_loaded: bool,
+    remove_unknown: bool,
+    add_failing: bool,
+    readd_loaded: bool,
+    override_names: bool,
+    override_expiry: bool,
+    exact_over_wildcard: bool,
+    wildcard_served: bool,
+    longest_lived_choice: bool,
+    default_served: bool,
+    fallback_other: bool,
+    fallback_default: bool,
+    reload_after_remove: bool,
+    weak_probe: bool,
+    noncanonical_name_served: bool,
+}
+
+pub fn check(case: &Case) -> CheckResult {
+    let mut rep = CaseReport::default();
+    let probes = probes();
+    let mut res = CertificateResolver::default();
+    let mut model = Model::default();
+    let mut seen = Seen::default();
+    let mut prev: BTreeMap<String, Option<String>> = BTreeMap::new();
+
+    for (step, op) in case.ops.iter().enumerate() {
+        let mut just_removed: Option<String> = None;
+        match op {
+            Op::Add(spec) => {
+                let was_loaded = spec.bad == Bad::No && model.get(fixture(spec).fingerprint).is_some();
+                let was_removed = model.removed.contains(fixture(spec).fingerprint);
+                let got = res.add_certificate(&AddCertificate {
+                    address: address(),
+                    certificate: certificate_and_key(spec),
+                    expired_at: spec.expired_at,
+                });
+                let exp = model.add(spec);
+                match (&exp, &got) {
+                    (Ok(fp), Ok(g)) if *fp == g.to_string() => {}
+                    (Err(()), Err(_)) => seen.add_failing = true,
+                    _ => fail!(
+                        "C17/op-verdict:add",
+                        "step {step} {op:?}: add_certificate returned {got:?}, expected {exp:?}"
+                    ),
+                }
+                if exp.is_ok() {
+                    seen.readd_loaded |= was_loaded;
+                    seen.reload_after_remove |= was_removed && !was_loaded;
+                    if !was_loaded {
+                        seen.override_names |= !spec.names.is_empty();
+                        seen.override_expiry |= spec.expired_at.is_some();
+                    }
+                }
+            }
+            Op::Remove(fp) => {
+                let bytes = hex_bytes(fp).expect("generator emits decodable fingerprints for Remove");
+                let got = res.remove_certificate(&Fingerprint(bytes.clone()));
+                if let Err(e) = got {
+                    fail!(
+                        "C17/op-verdict:remove",
+                        "step {step} {op:?}: remove_certificate failed: {e}"
+                    );
+                }
+                let canonical = hex::encode(&bytes);
+                if model.remove(&canonical) {
+                    seen.effective_remove = true;
+                    just_removed = Some(canonical);
+                } else {
+                    seen.remove_unknown = true;
+                }
+            }
+            Op::Replace { old, new } => {
+                let got = res.replace_certificate(&ReplaceCertificate {
+                    address: address(),
+                    new_certificate: certificate_and_key(new),
+                    old_fingerprint: old.clone(),
+                    new_expired_at: new.expired_at,
+                });
+                let old_bytes = hex_bytes(old);
+                // reference semantics: a replacement whose new certificate does not parse changes
+                // nothing; old == new keeps the store as it is; otherwise Add(new) then Remove(old),
+                // the removal being skipped when `old` is not a fingerprint at all
+                let exp: Result<String, ()> = if new.bad != Bad::No {
+                    seen.replace_failing = true;
+                    Err(())
+                } else {
+                    let new_fp = fixture(new).fingerprint;
+                    let old_hex = old_bytes.as_ref().map(hex::encode);
+                    if old_hex.as_deref() == Some(new_fp) {
+                        if model.get(new_fp).is_some() {
+                            seen.replace_idempotent_loaded = true;
+                        } else {
+                            seen.replace_idempotent_unloaded = true;
+                        }
+                        Ok(new_fp.to_string())
+                    } else {
+                        let was_loaded = model.get(new_fp).is_some();
+                        seen.replace_new_already_loaded |= was_loaded;
+                        let fp = model.add(new).expect("good spec");
+                        if !was_loaded {
+                            seen.override_names |= !new.names.is_empty();
+                            seen.override_expiry |= new.expired_at.is_some();
+                        }
+                        match old_hex {
+                            Some(o) => {
+                                if model.remove(&o) {
+                                    seen.effective_replace = true;
+                                    just_removed = Some(o);
+                                } else {
+                                    seen.replace_old_unknown = true;
+                                }
+                            }
+                            None => seen.replace_old_unparsable = true,
+                        }
+                        Ok(fp)
+                    }
+                };
+                match (&exp, &got) {
+                    (Ok(fp), Ok(g)) if *fp == g.to_string() => {}
+                    (Err(()), Err(_)) => {}
+                    _ => fail!(
+                        "C17/op-verdict:replace",
+                        "step {step} {op:?}: replace_certificate returned {got:?}, expected {exp:?}"
+                    ),
+                }
+            }
+        }
+
+        // ---- the store holds exactly the loaded certificates
+        for fx in certs::BANK {
+            let in_store = res
+                .get_certificate(&Fingerprint(hex::decode(fx.fingerprint).unwrap()))
+                .is_some();
+            let in_model = model.get(fx.fingerprint).is_some();
+            if in_store != in_model {
+                fail!(
+                    "C17/store-mismatch",
+                    "step {step} {op:?}: certificate {} ({}) is {} the store but {} by the history",
+                    fx.id,
+                    fx.fingerprint,
+                    if in_store { "in" } else { "not in" },
+                    if in_model { "loaded" } else { "not loaded" }
+                );
+            }
+        }
+
+        // ---- shape of the loaded set (measurement)
+        for (i, a) in model.loaded.iter().enumerate() {
+            for b in &model.loaded[i + 1..] {
+                if a.names.iter().any(|n| b.names.contains(n)) {
+                    seen.shared_name = true;
+                    if a.expiry == b.expiry {
+                        seen.expiry_tie = true;
+                    }
+                }
+            }
+        }
+
+        // ---- every probe
+        for name in &probes {
+            rep.inner_evaluations += 1;
+            let got = served(&res, name);
+            let describe = |m: &Model| -> String {
+                m.loaded
+                    .iter()
+                    .map(|l| format!("{}{:?}@{}", l.fixture, l.names, l.expiry))
+                    .collect::<Vec<_>>()
+                    .join(", ")
+            };
+
+            // the served certificate is a loaded one, and the one the store hands to rustls
+            let served_cert: Option<&Loaded> = match &got {
+                None => None,
+                Some(fp) => {
+                    let Some(l) = model.get(fp) else {
+                        let sig = if model.removed.contains(fp) {
+                            "C17/removed-cert-served"
+                        } else {
+                            "C17/unloaded-cert-served"
+                        };
+                        fail!(
+                            sig,
+                            "step {step} {op:?}: SNI {name:?} resolves to fingerprint {fp} which is not loaded; loaded: {}",
+                            describe(&model)
+                        );
+                    };
+                    let fpb = Fingerprint(hex::decode(fp).unwrap());
+                    if res.get_certificate(&fpb).is_none() {
+                        fail!(
+                            "C17/dangling-fingerprint",
+                            "step {step} {op:?}: SNI {name:?} resolves to {fp} ({}) but the store has no such certificate",
+                            l.fixture
+                        );
+                    }
+                    Some(l)
+                }
+            };
+            // the SAN snapshot used for strict SNI binding is the served certificate's name list
+            let sni_names = res.names_for_sni(name.as_bytes());
+            if sni_names.as_ref() != served_cert.map(|l| &l.names) {
+                let only_spelling = match (&sni_names, served_cert) {
+                    (Some(got), Some(l)) => dns_form(got) == l.names,
+                    _ => false,
+                };
+                fail!(
+                    if only_spelling {
+                        "C17/names-not-in-dns-form"
+                    } else {
+                        "C17/names-for-sni-mismatch"
+                    },
+                    "step {step} {op:?}: SNI {name:?} is served {:?} with names {:?} but names_for_sni says {sni_names:?}",
+                    served_cert.map(|l| l.fixture),
+                    served_cert.map(|l| &l.names)
+                );
+            }
+
+            let served_idx = served_cert.map(|l| {
+                model
+                    .loaded
+                    .iter()
+                    .position(|x| x.fingerprint == l.fingerprint)
+                    .unwrap()
+            });
+            let (exact, wild) = model.tiers(name);
+            if norm(name) == *name {
+                // a server name as rustls hands it over (lower case, no trailing dot): full oracle
+                if let Some((sig, what)) = verdict(&model, served_idx, &exact, &wild) {
+                    // triage: right if names were compared byte-wise as spelled => the resolver
+                    // does not bring certificate names to DNS form (fixed by 5fb16d5)
+                    let (re, rw) = model.tiers_of(name, true);
+                    let sig = if verdict(&model, served_idx, &re, &rw).is_none() {
+                        "C17/noncanonical-spelling-not-served"
+                    } else {
+                        sig
+                    };
+                    fail!(
+                        sig,
+                        "step {step} {op:?}: SNI {name:?} {what} (names compared as DNS does: ASCII case-insensitive, trailing dot ignored); loaded: {}",
+                        describe(&model)
+                    );
+                }
+                let tier = if !exact.is_empty() { &exact } else { &wild };
+                match served_idx {
+                    None => seen.default_served = true,
+                    Some(i) => {
+                        let best = model.loaded[i].expiry;
+                        seen.exact_over_wildcard |= !exact.is_empty() && !wild.is_empty();
+                        seen.wildcard_served |= exact.is_empty();
+                        seen.longest_lived_choice |=
+                            tier.iter().any(|&j| model.loaded[j].expiry != best);
+                        seen.noncanonical_name_served |= model.loaded[i].raw_names
+                            != model.loaded[i].names
+                            && model.tiers_of(name, true) != (exact.clone(), wild.clone());
+                    }
+                }
+            } else {
+                // a spelling rustls never hands over (upper case, trailing dot): not a real caller
+                // input; only what the property demands of any served certificate is asserted — it is
+                // loaded (above) and covers the name as DNS compares
+                seen.weak_probe = true;
+                if let Some(i) = served_idx {
+                    if !exact.contains(&i) && !wild.contains(&i) {
+                        let l = &model.loaded[i];
+                        fail!(
+                            "C17/served-not-covering",
+                            "step {step} {op:?}: raw lookup {name:?} is served {} {:?} which does not cover it as DNS compares; loaded: {}",
+                            l.fixture,
+                            l.names,
+                            describe(&model)
+                        );
+                    }
+                }
+            }
+
+            // what a removal did to the names the removed certificate was serving
+            if let Some(gone) = &just_removed {
+                if prev.get(name).and_then(|p| p.as_ref()) == Some(gone) {
+                    match &got {
+                        Some(_) => seen.fallback_other = true,
+                        None => seen.fallback_default = true,
+                    }
+                }
+            }
+            prev.insert(name.clone(), got);
+        }
+    }
+
+    rep.nontrivial = seen.shared_name && (seen.effective_remove || seen.effective_replace);
+    rep.class_if(seen.shared_name, "shared_name_2+_loaded");
+    rep.class_if(seen.expiry_tie, "shared_name_equal_expiry");
+    rep.class_if(seen.effective_remove, "effective_remove");
+    rep.class_if(seen.effective_replace, "effective_replace");
+    rep.class_if(seen.replace_idempotent_loaded, "replace_idempotent_loaded");
+    rep.class_if(seen.replace_idempotent_unloaded, "replace_idempotent_unloaded");
+    rep.class_if(seen.replace_failing, "replace_failing");
+    rep.class_if(seen.replace_old_unparsable, "replace_old_unparsable");
+    rep.class_if(seen.replace_old_unknown, "replace_old_unknown");
+    rep.class_if(seen.replace_new_already_loaded, "replace_new_already_loaded");
+    rep.class_if(seen.remove_unknown, "remove_unknown");
+    rep.class_if(seen.add_failing, "add_failing");
+    rep.class_if(seen.readd_loaded, "readd_loaded_fingerprint");
+    rep.class_if(seen.reload_after_remove, "reload_after_remove");
+    rep.class_if(seen.override_names, "override_names");
+    rep.class_if(seen.override_expiry, "override_expiry");
+    rep.class_if(seen.exact_over_wildcard, "probe_exact_over_wildcard");
+    rep.class_if(seen.wildcard_served, "probe_wildcard_served");
+    rep.class_if(seen.longest_lived_choice, "probe_longest_lived_among_unequal");
+    rep.class_if(seen.default_served, "probe_default_for_uncovered");
+    rep.class_if(seen.fallback_other, "removal_falls_back_to_other_cert");
+    rep.class_if(seen.fallback_default, "removal_falls_back_to_default");
+    rep.class_if(seen.weak_probe, "raw_noncanonical_probe_weak_oracle");
+    rep.class_if(
+        seen.noncanonical_name_served,
+        "probe_served_via_name_not_spelled_in_dns_form",
+    );
+    Ok(rep)
+}
+
+pub fn run(args: &Args) -> i32 {
+    let mut ev = Evidence::new(args, "exploration");
+    ev.rule(
+        "resolver",
+        "history = 2..16 ops Add(cert, names override?, expired_at?) / Remove(fingerprint: loaded earlier | any of the bank | unknown | empty) / Replace(old: loaded earlier | == new (idempotent) | unknown | unparsable | upper-case hex, new: good | bad PEM | bad key) over the 12-certificate fixture bank (overlapping exact and wildcard names, equal and different expiries), applied to sozu_lib::tls::CertificateResolver and to a reference list of loaded (fingerprint, names in DNS form, expiry). After every op: verdict and returned fingerprint as the reference expects, store == loaded set, and for each of ~60 probe names (every bank/override name in DNS form, one label under each wildcard, two labels under it, the wildcard's parent, unknown names; plus raw upper-case and trailing-dot spellings under a weaker oracle) domain_lookup(name, true) — the call rustls' resolve() makes — returns a loaded fingerprint of the exact tier if that is non-empty, else of the wildcard tier, with maximal expiry in its tier (ties: any), and None (default certificate) iff both tiers are empty; get_certificate finds it; names_for_sni equals its names; a removed fingerprint is never returned. Non-trivial: at some step two loaded certificates share a name, and a Remove/Replace took a loaded certificate away. Distinct by case hash.",
+    );
+    ev.assume("MutexCertificateResolver::resolve cannot be called in-process (rustls ClientHello has no public constructor); its body is domain_lookup(sni, true) + store lookup, which is what the check calls");
+    ev.assume("expiry of a loaded certificate = expired_at override if given, else the fixture's notAfter from the manifest; names = names override if non-empty, else SAN dNSNames (CN when there is no SAN) from the manifest; re-adding a loaded fingerprint keeps the first names/expiry (documented no-op)");
+    ev.assume("certificate names (SAN / CN / override) are loaded in DNS comparison form: ASCII lower case, one trailing dot dropped, duplicates dropped keeping the first; cover(N), names_for_sni and the name-sharing measure use that form");
+    ev.assume("probes spelled with upper case or a trailing dot are not real caller input (rustls hands the SNI over lower-cased): for them only 'a served certificate is loaded and covers the name as DNS compares' is asserted");
+    ev.assume("the 'no window during Replace' clause and strict SNI binding need concurrent handshakes / a listener: wire lab, not this module");
+    ev.floor("resolver", "shared_name_2+_loaded", 0.30);
+    ev.floor("resolver", "effective_remove", 0.25);
+    ev.floor("resolver", "effective_replace", 0.15);
+    ev.floor("resolver", "probe_exact_over_wildcard", 0.20);
+    ev.floor("resolver", "probe_longest_lived_among_unequal", 0.20);
+    ev.floor("resolver", "removal_falls_back_to_other_cert", 0.15);
+    ev.floor("resolver", "shared_name_equal_expiry", 0.03);
+    ev.floor("resolver", "replace_idempotent_loaded", 0.03);
+    ev.floor("resolver", "replace_failing", 0.03);
+    ev.floor("resolver", "replace_old_unparsable", 0.03);
+    ev.floor("resolver", "override_names", 0.30);
+    ev.floor("resolver", "probe_served_via_name_not_spelled_in_dns_form", 0.15);
+    ev.floor("resolver", "override_expiry", 0.30);
+    let cases = args.cases(200_000, 3_000_000);
+    engine::run_pbt(&mut ev, args, "resolver", cases, strategy, check);
+    ev.finish()
 }
